@@ -4,7 +4,7 @@ cd "$(dirname "$0")/.." || exit 2
 rc=0
 for p in benign/*.patch; do
   echo "### $p"
-  out=$(tools/try_mutant.py "$p" C01,C02,C03,C04,C05,C07,C08,C09,C10,C11,C12,C13,C14,C15,C18,C20 quick 2>&1)
+  out=$(tools/try_mutant.py "$p" C01,C02,C03,C04,C05,C06,C07,C08,C09,C10,C11,C12,C13,C14,C15,C18,C20 quick 2>&1)
   echo "$out" | grep -E "^== |VIOLATION|HARNESS" | cut -c1-200
   echo "$out" | grep -q "exit=1\|exit=2" && rc=1
 done
